@@ -192,6 +192,12 @@ func (s *Stats) Write() {
 	for _, r := range s.reservoir {
 		samples = append(samples, r.v)
 	}
+	if n := heapAborts.Load(); n > 0 {
+		s.counters["runs_ended_by_memory_watchdog"] = n
+	}
+	if n := wallAborts.Load(); n > 0 {
+		s.counters["runs_ended_by_wall_watchdog"] = n
+	}
 	f := statsFile{ID: s.ID, Part: s.Part, Rule: s.Rule, Exhaustive: s.Exhaustive, Evaluations: s.evaluations,
 		Distinct: len(s.nontrivial), Counters: s.counters, Maxes: s.maxes, Samples: samples,
 		WallS: time.Since(s.start).Seconds(), HashFile: hashFile}
@@ -263,6 +269,14 @@ func ClearInflight() {
 var traceFile *os.File
 var watchdogOn bool
 
+// heapAborts counts runs ended by the watchdog because of their memory use.
+var heapAborts atomic.Int64
+
+// wallAborts counts runs ended by the watchdog after abortAfter of wall time.
+var wallAborts atomic.Int64
+
+const abortAfter = 3 * time.Second
+
 // StartWatchdog arms the trace file and the watchdog goroutine: a case in flight
 // for more than limit of wall time, or a heap above 3 GiB, ends the process with
 // exit status 3 after writing the suspect to <out>/suspect_<id>.json. This is
@@ -277,9 +291,10 @@ func StartWatchdog(id string, limit time.Duration) {
 	watchdogOn = true
 	go func() {
 		lastSeq := int64(-1)
+		abortedSeq := int64(-1)
 		var since time.Time
 		for {
-			time.Sleep(500 * time.Millisecond)
+			time.Sleep(100 * time.Millisecond)
 			seq := inflightSeq.Load()
 			curFn := inflight.Load().(inflightDesc).fn
 			var ms runtime.MemStats
@@ -292,6 +307,25 @@ func StartWatchdog(id string, limit time.Duration) {
 			}
 			stuck := curFn != nil && time.Since(since) > limit
 			big := curFn != nil && ms.HeapAlloc > 3<<30
+			if !big && !stuck && curFn != nil && hookEnabled && id != "C10" && time.Since(since) > abortAfter && abortedSeq != seq {
+				// a run far beyond any legitimate duration (cases take milliseconds): end it
+				// as "over budget" once, which discards the case; if the case is still in
+				// flight at the full limit the process ends below. Not for C10, whose
+				// verdict is the step budget itself.
+				abortedSeq = seq
+				abortRun()
+				wallAborts.Add(1)
+			}
+			if !big && !stuck && curFn != nil && hookEnabled && id != "C10" && ms.HeapAlloc > 1<<30 {
+				// a run that has allocated a gigabyte: end it as "over budget" (the
+				// properties that judge resource use treat that as their verdict, the
+				// others discard the case) instead of losing the whole process
+				abortRun()
+				heapAborts.Add(1)
+				time.Sleep(50 * time.Millisecond)
+				runtime.GC()
+				continue
+			}
 			cur := ""
 			if stuck || big {
 				cur = curFn()
